@@ -19,9 +19,9 @@ const (
 
 type fmEnv struct {
 	*vEnv
-	k              Keeper
-	creator, a, b  sdk.AccAddress
-	poolID         string
+	k             Keeper
+	creator, a, b sdk.AccAddress
+	poolID        string
 }
 
 func newFmEnv(height int64) *fmEnv {
@@ -63,6 +63,8 @@ func (e *fmEnv) setFarmer(addr sdk.AccAddress, locked, debt sdkmath.Int) {
 	e.k.SetFarmInfo(e.ctx, types.FarmInfo{PoolId: e.poolID, Address: addr.String(), Locked: locked, RewardDebt: sdk.NewCoins(sdk.Coin{Denom: fmReward, Amount: debt})})
 }
 
-func (e *fmEnv) bal(addr sdk.AccAddress, denom string) *big.Int { return e.bank.get(addr, denom).BigInt() }
-func (e *fmEnv) mod(denom string) *big.Int                      { return e.bal(vModuleAddr(types.ModuleName), denom) }
-func (e *fmEnv) collector() *big.Int                            { return e.bal(vModuleAddr(types.RewardCollector), fmReward) }
+func (e *fmEnv) bal(addr sdk.AccAddress, denom string) *big.Int {
+	return e.bank.get(addr, denom).BigInt()
+}
+func (e *fmEnv) mod(denom string) *big.Int { return e.bal(vModuleAddr(types.ModuleName), denom) }
+func (e *fmEnv) collector() *big.Int       { return e.bal(vModuleAddr(types.RewardCollector), fmReward) }
